@@ -38,9 +38,9 @@ c23o(Ctx, Op, Tpl, R) :-
 c23run(i, functor, t(A, B, C)) :- functor(A, B, C).
 c23run(i, arg, t(A, B, C)) :- arg(A, B, C).
 c23run(i, univ, t(A, B)) :- A =.. B.
-c23run(i, copy_term, t(A, B)) :- A = B.
+c23run(i, copy_term, t(A, B)) :- copy_term(A, B).
 c23run(i, term_variables, t(A, B)) :- term_variables(A, B).
-c23run(i, ground, t(A)) :- \+ ground(A).
+c23run(i, ground, t(A)) :- ground(A).
 c23run(i, subsumes_term, t(A, B)) :- subsumes_term(A, B).
 c23run(c, Op, Tpl) :- c23name(Op, P), c23call(P, Tpl).
 c23name(functor, functor).
